@@ -82,7 +82,11 @@ META = {
         "inherited HTMLParser buffer first. "
         "(R9) The parser nests elements without a depth bound, so a traversal visible from the container element must not call "
         "itself once per nesting level: walk, deepcopy, strip and Tag.render do (four known findings, RecursionError from a few "
-        "hundred levels)."
+        "hundred levels). "
+        "(R10) The handler of the parse_marked_section override that covers the AssertionError of the inherited call has no raise on any path an "
+        "AssertionError can take (bare raise / re-raise of the bound name, conditional or not, is a violation; a raise under `not isinstance(exc, AssertionError..)` is exempt; "
+        "any other raise, or an outer handler in feed/tokenize_html, is an analysis error): _markupbase raises several distinct AssertionErrors there "
+        "(unknown status keyword; _scan_name's expected name token) - the list is re-read from the installed source."
     ),
     "not_decided": (
         "exact round trip as a value for every well-formed document (only the structural necessary conditions above); "
@@ -4631,7 +4635,165 @@ def r9_traversal_depth(corpus: Corpus, rep: Report, tier: str):
     rep.expect_min("C16.R9", 4, "walk, deepcopy, strip, render (and the other child loops) of the container element")
 
 
-RULES = [r1_owner_writes, r2_fresh_insertion, r3_callbacks_and_delimiters, r4_copy_before_mutate, r5_stack_discipline, r6_totality, r7_document_order, r8_clean_state_per_parse, r9_traversal_depth]
+# ---------------------------------------------------------------------------
+# R10: the override that shields feed() from html.parser's marked-section AssertionErrors swallows all of them
+
+_COVERS_ASSERTION = ("AssertionError", "Exception", "BaseException")
+
+
+def _handler_covers_assertion(h: ast.ExceptHandler) -> bool | None:
+    """True / False, None when a handler type is not a plain (dotted) exception name."""
+    if h.type is None:
+        return True
+    names = list(h.type.elts) if isinstance(h.type, ast.Tuple) else [h.type]
+    unknown = False
+    for t in names:
+        d = dotted(t)
+        if d is None:
+            unknown = True
+        elif d.rsplit(".", 1)[-1] in _COVERS_ASSERTION:
+            return True
+        elif not (d.rsplit(".", 1)[-1].endswith(("Error", "Exception", "Warning", "Exit", "Interrupt", "StopIteration"))):
+            unknown = True
+    return None if unknown else False
+
+
+def _stdlib_marked_section_raises(mb) -> list[str]:
+    """Texts of the `raise AssertionError(..)` statements in _markupbase.parse_marked_section and the self._helpers it calls."""
+    fn = mb.functions.get("ParserBase.parse_marked_section")
+    if fn is None:
+        raise AnchorMissing("stdlib _markupbase.ParserBase.parse_marked_section not found")
+    fns = [fn]
+    for c in walk_local(fn.node):
+        if isinstance(c, ast.Call) and isinstance(c.func, ast.Attribute) and _is_name(c.func.value, "self"):
+            g = mb.functions.get(f"ParserBase.{c.func.attr}")
+            if g is not None and g not in fns:
+                fns.append(g)
+    out = []
+    for g in fns:
+        for n in walk_local(g.node):
+            if isinstance(n, ast.Raise) and n.exc is not None:
+                f = n.exc.func if isinstance(n.exc, ast.Call) else n.exc
+                if dotted(f) == "AssertionError":
+                    out.append(f"{g.name}: {short(n, 70)}")
+    return out
+
+
+def _raise_excludes_assertion(r: ast.Raise, h: ast.ExceptHandler) -> bool:
+    """The raise sits under `if not isinstance(<bound name>, <classes covering AssertionError>)` (or in the else branch of
+    the positive test): it is not reached for an AssertionError."""
+    if not h.name:
+        return False
+    child: ast.AST = r
+    p = parent(r)
+    while p is not None and p is not h:
+        if isinstance(p, ast.If):
+            test, pol = p.test, True
+            if isinstance(test, ast.UnaryOp) and isinstance(test.op, ast.Not):
+                test, pol = test.operand, False
+            if isinstance(test, ast.Call) and _is_name(test.func, "isinstance") and len(test.args) == 2 and _is_name(test.args[0], h.name):
+                cls = list(test.args[1].elts) if isinstance(test.args[1], ast.Tuple) else [test.args[1]]
+                covers = any((dotted(t) or "").rsplit(".", 1)[-1] in _COVERS_ASSERTION for t in cls)
+                in_body = any(child is st for st in p.body)
+                in_else = any(child is st for st in p.orelse)
+                if covers and ((not pol and in_body) or (pol and in_else)):
+                    return True
+        child, p = p, parent(p)
+    return False
+
+
+@rule("C16.R10")
+def r10_marked_section_handler_swallows(corpus: Corpus, rep: Report, tier: str):
+    rep.rule(
+        "C16.R10",
+        "the handler that catches the AssertionError of the inherited parse_marked_section (the raise html.parser reaches from feed()) "
+        "swallows every such AssertionError: no path of the handler re-raises it",
+    )
+    P = _ctx(corpus)
+    _, mb, _ = _stdlib(corpus)
+    rep.saw_sibling(mb.rel)
+    raises = _stdlib_marked_section_raises(mb)
+    name = "parse_marked_section"
+    key = f"{P.parser.fq}.{name}|every AssertionError of the inherited call is swallowed"
+    if not raises:
+        rep.ok("C16.R10", key, P.parser.methods[name].site() if name in P.parser.methods else P.m.site(P.parser.node), "the installed _markupbase.parse_marked_section raises no AssertionError: nothing to swallow")
+        return
+    fi = P.parser.methods.get(name)
+    if fi is None:
+        raise AnchorMissing(f"{P.parser.name} no longer overrides {name} (C16.R6 judges the feed() entry)")
+    rep.saw_function(fi.fq)
+    sup = [c for c in walk_local(fi.node) if isinstance(c, ast.Call) and isinstance(c.func, ast.Attribute) and c.func.attr == name and not _is_name(c.func.value, "self")]
+    if not sup:
+        raise Unsupported(f"{fi.qualname} does not call the inherited {name}: a re-implementation is not understood")
+    # an outer safety net (a handler for AssertionError around feed / in the entry point) would make a re-raise harmless: not decided here
+    outer_net = False
+    for q in [P.parser.methods.get("feed"), P.m.functions.get("tokenize_html")]:
+        if q is None:
+            continue
+        for n in walk_local(q.node):
+            if isinstance(n, ast.ExceptHandler) and _handler_covers_assertion(n) is not False:
+                outer_net = True
+    for call in sup:
+        rep.saw_call(fi.module.site(call))
+        verdict = None  # ("ok"|"violation"|"error", site node, text)
+        child: ast.AST = call
+        p = parent(call)
+        while p is not None and verdict is None:
+            if isinstance(p, ast.Try) and any(child is st for st in p.body):
+                for h in p.handlers:
+                    cov = _handler_covers_assertion(h)
+                    if cov is None:
+                        verdict = ("error", h, f"handler type `{short(h.type, 40)}` is not a plain exception class name")
+                        break
+                    if not cov:
+                        continue
+                    bad = [r for st in h.body for r in ast.walk(st) if isinstance(r, ast.Raise) and enclosing_function(r) is fi and not _raise_excludes_assertion(r, h)]
+                    if not bad:
+                        verdict = ("ok", h, f"`except {short(h.type, 30) if h.type is not None else ''}` has no raise on any path: each of the {len(raises)} AssertionErrors of the stdlib path ends in the handler's recovery")
+                        break
+                    r = bad[0]
+                    reraise = r.exc is None or (h.name and _is_name(r.exc, h.name))
+                    nested_try = any(isinstance(a, ast.Try) for a in _ancestors_until(r, h))
+                    if not reraise or nested_try or outer_net:
+                        verdict = ("error", r, f"`{short(r, 50)}` inside the AssertionError handler of {fi.qualname}: whether the raised exception still leaves feed() is not decided")
+                    else:
+                        cond = [a for a in _ancestors_until(r, h) if isinstance(a, (ast.If, ast.Match, ast.While, ast.For))]
+                        how = f"under `{short(cond[0].test, 60)}`" if cond and isinstance(cond[0], (ast.If, ast.While)) else ("conditionally" if cond else "unconditionally")
+                        verdict = (
+                            "violation",
+                            r,
+                            f"the handler for the inherited {name} re-raises the AssertionError {how}: html.parser reaches {len(raises)} different `raise AssertionError` there "
+                            f"({'; '.join(raises[:3])}), so some malformed `<![...` input makes feed() - hence tokenize_html - raise instead of yielding a bogus comment",
+                        )
+                    break
+                # a try without a covering handler: keep looking outwards
+            if p is fi.node:
+                break
+            child, p = p, parent(p)
+        if verdict is None:
+            # C16.R6 (engine) reports the unguarded call; nothing to add here
+            rep.listed("C16.R10", key + "|unguarded", fi.module.site(call), "the inherited call is not inside a handler for AssertionError: judged by C16.R6")
+            continue
+        kind, node, text = verdict
+        if kind == "ok":
+            rep.ok("C16.R10", key, fi.module.site(node), text)
+        elif kind == "violation":
+            rep.violation("C16.R10", key, fi.module.site(node), text)
+        else:
+            rep.error("C16.R10", text)
+    rep.expect_min("C16.R10", 1, "the one inherited parse_marked_section call of the override")
+
+
+def _ancestors_until(n: ast.AST, stop: ast.AST) -> list:
+    out = []
+    p = parent(n)
+    while p is not None and p is not stop:
+        out.append(p)
+        p = parent(p)
+    return out
+
+
+RULES = [r1_owner_writes, r2_fresh_insertion, r3_callbacks_and_delimiters, r4_copy_before_mutate, r5_stack_discipline, r6_totality, r7_document_order, r8_clean_state_per_parse, r9_traversal_depth, r10_marked_section_handler_swallows]
 
 
 def _method_src(fi: FunctionInfo) -> str:
@@ -4768,6 +4930,16 @@ def mutants(corpus: Corpus):
     add("c16-marked-section-override-removed", "C16.R6", pms.node if pms is not None else None, "pass", "feed")  # reverts cda43d1
     hd = find_node(pms, lambda n: isinstance(n, ast.ExceptHandler) and n.type is not None) if pms is not None else None
     add("c16-marked-section-handler-narrowed", "C16.R6", hd.type if hd is not None else None, "ValueError", "feed")
+    # ---- R10 (class: the handler still names AssertionError but lets some of them through)
+    hb = hd.body[0] if hd is not None and hd.body else None
+    hseg = ast.get_source_segment(src, hb) if hb is not None else None
+    if hd is not None and hb is not None and not isinstance(hd.type, ast.Tuple):
+        hname_ = hd.name or "exc"
+        edits = [(hb, f"if 'unknown status keyword' not in str({hname_}):\n                raise\n            {hseg}")] + ([] if hd.name else [(hd.type, f"{ast.get_source_segment(src, hd.type)} as exc")])
+        out.append(Mutant("c16-marked-section-handler-filters-by-message", "C16.R10", m.rel, multi(edits), expect="every AssertionError of the inherited call is swallowed"))
+    else:
+        out.append(("c16-marked-section-handler-filters-by-message", "the parse_marked_section override has no single-class handler with a body"))
+    add("c16-marked-section-handler-reraises-when-reporting", "C16.R10", hb, f"if report:\n                raise\n            {hseg}", "every AssertionError of the inherited call is swallowed")
     # ---- R4 (class: an operation of strip() reaches the original although inplace is false)
     c = find_node(s_, lambda n: isinstance(n, ast.Call) and unparse(n.func) == "element.reset_children")
     add("c16-strip-resets-children-of-original", "C16.R4", c.func.value if c is not None else None, "self", "uses self")
